@@ -5,6 +5,7 @@ package main
 import (
 	"bytes"
 	"context"
+	"encoding/json"
 	"fmt"
 	"io"
 	"net"
@@ -49,6 +50,9 @@ type exch struct {
 	Proto  string   `json:"proto"` // h1 | h2 | h3
 	A      *aresp   `json:"resp"`
 	H1     *h1opts  `json:"h1,omitempty"`
+	H2     *h2opts  `json:"h2,omitempty"`
+	H3     *h3opts  `json:"h3,omitempty"`
+	Group  int      `json:"group,omitempty"` // >0: the same abstract response is fetched over all three protocols
 	Method string   `json:"method"`
 	Mode   string   `json:"mode"` // auto | stream | tobytes | output | outfile
 	Pat    []int    `json:"read_sizes"`
@@ -307,16 +311,31 @@ func (x *exch) coqH1() string {
 }
 
 func (x *exch) key() string {
+	if x.Proto != "h1" {
+		b, _ := json.Marshal(x)
+		return fmt.Sprintf("%s|%s|%x", x.Proto, b, x.A.Body)
+	}
 	return fmt.Sprintf("%s|%s|%s|%v|%s|%x", x.Proto, x.Method, x.Mode, x.Pat, x.SegK, x.wire)
 }
 
 func (x *exch) sigBase() string {
 	fr := ""
-	if x.H1 != nil {
+	switch {
+	case x.H1 != nil:
 		fr = x.H1.FrName
-		if x.H1.Head {
-			fr += "+head"
+	case x.H2 != nil:
+		fr = "nolen"
+		if x.H2.Declare {
+			fr = "cl"
 		}
+	case x.H3 != nil:
+		fr = "nolen"
+		if x.H3.Declare {
+			fr = "cl"
+		}
+	}
+	if x.Method == "HEAD" {
+		fr += "+head"
 	}
 	return strings.Join([]string{x.Proto, fr, x.Mode}, ":")
 }
